@@ -205,6 +205,7 @@ func (st *runState) evalCase(cs caseSpec, fail failer) outcome {
 			// not judged (the statement does not say who has to notice the disconnect
 			// first), but measured
 			rec.Class("calls-returned-only-after-local-close")
+			fmt.Printf("NOTE calls returned only after the local Close(): %s calls=%+v trace=%v\n", cs, o.Calls, o.Trace)
 		}
 	}
 	if o.CallPendingAtEnd {
@@ -398,6 +399,9 @@ func (st *runState) baseline(only string, fail failer) {
 		o := runCaseIgnoring(s, cs, fullBound, ign, func(k string) bool {
 			// leaks of the baseline are listed per leaked function and mode
 			if i := strings.Index(k, "goroutine-leak@"); i >= 0 {
+				if st.rec.IsKnown(k) {
+					return true
+				}
 				for _, f := range strings.Split(k[i+len("goroutine-leak@"):], "+") {
 					if !st.isKnownOrReported(noFaultLeakKey(s, f)) {
 						return false
@@ -425,6 +429,13 @@ func (st *runState) baseline(only string, fail failer) {
 		if strings.HasPrefix(o.Symptom, "goroutine-leak") {
 			// one finding per leaked function and mode
 			for _, f := range o.leakFuncs {
+				if k := fmt.Sprintf("%s:goroutine-leak@%s", s.Proto, f); st.rec.IsKnown(k) {
+					// a listed schedule-dependent leak that also shows up without a fault (e.g.
+					// the restart after MsgDone losing the race against the disconnect on a
+					// loaded machine): reported under its own key, not as unconditional
+					fail(k, o.What, map[string]any{"spec": cs, "outcome": o})
+					continue
+				}
 				key := noFaultLeakKey(s, f)
 				st.noteReported(key)
 				fail(key, fmt.Sprintf("a goroutine parked in %s is left behind by every %s connection, also after a fault-free conversation and Close() (first seen in scenario %s)", f, s.Mode, s.Name),
